@@ -370,6 +370,58 @@ func C12(c *fw.Ctx) {
 	objNames(c, bound)
 	objValues(c, bound)
 	scaleObjects(c)
+	objLiteralNames(c)
+}
+
+// objLiteralNames: the value expressions of a literal are ordinary expressions of the enclosing scope:
+// three variables a, b, w exist outside; the literal has the keys a, b, w in every order and every value
+// is one of {a constant, the variable of the same name, another variable, an expression over two
+// variables, a call with a variable}; also as a function's return value built from its parameters.
+func objLiteralNames(c *fw.Ctx) {
+	id, num := model.Id, model.Num
+	keys := []string{"a", "b", "w"}
+	vals := func(k string, form int) *model.N {
+		other := map[string]string{"a": "b", "b": "w", "w": "a"}[k]
+		switch form {
+		case 0:
+			return num(5)
+		case 1:
+			return id(k)
+		case 2:
+			return id(other)
+		case 3:
+			return model.Bin("+", id("a"), id("w"))
+		}
+		return model.CallN("idf", id(other))
+	}
+	for _, perm := range permutations(3) {
+		for code := 0; code < 125; code++ {
+			if !c.Mine() {
+				continue
+			}
+			var ks []string
+			var vs, vs2 []*model.N
+			cd := code
+			for _, p := range perm {
+				ks = append(ks, keys[p])
+				vs = append(vs, vals(keys[p], cd%5))
+				vs2 = append(vs2, vals(keys[p], cd%5))
+				cd /= 5
+			}
+			prog := []*model.N{
+				model.Fun("idf", []string{"x"}, model.Return(id("x"))),
+				model.Var("a", num(10)), model.Var("b", model.Obj([]string{"n"}, []*model.N{num(1)})), model.Var("w", num(3)),
+				model.Var("o", model.Obj(ks, vs)),
+				model.Print(id("o")), model.Print(model.CallN(model.BiKeys, id("o"))), model.Print(model.CallN(model.BiValues, id("o"))),
+				model.Fun("mk", []string{"a", "b", "w"}, model.Return(model.Obj(ks, vs2))),
+				model.Print(model.CallN("mk", num(1), num(2), num(4))),
+				model.Print(model.Arr(id("a"), id("b"), id("w"))),
+			}
+			judge(c, prog, judgeOpts{SigPrefix: "literal-values-mention-names", NoOneLine: true})
+			c.R.States++
+			c.R.Transitions++
+		}
+	}
 }
 
 // objValues: a property exists whatever value it holds: for every value of a pool covering every kind
